@@ -389,6 +389,13 @@ def oracle(prop, run):
                 for lab, t in tasks.items():
                     if t["state"] == "RELEASED" and t["fits_empty"] and t["release"] is not None and 0 <= t["release"] and endt - t["release"] > slack:
                         if not any(x >= t["release"] for x in starts_at):
+                            if flags.get("scheduler_run_at_worker_free") and any(
+                                o_["start"] is not None and o_["start"] >= 0 and (o_["completion"] is None or o_["completion"] < 0 or o_["completion"] + flags["scheduler_delay"] + 1 >= endt)
+                                and o_["state"] in ("RUNNING", "COMPLETED") for o_ in tasks.values()
+                            ):
+                                # with run-at-worker-free the scheduler waits for the earliest completion (+ delay + 1);
+                                # work was in flight whose completion lies at / after the end of the run: nothing is owed
+                                continue
                             # was the task released while a (time-consuming) scheduler invocation was under way?
                             during = any(len(r) > 2 and r[1] == "SCHEDULER_FINISHED" and int(r[2]) > 0 and int(r[0]) - int(r[2]) < t["release"] <= int(r[0]) for r in rows)
                             yield ("C05 scheduler-never-ran-after-a-task-was-released" + (" released-during-a-scheduler-invocation" if during else ""),
